@@ -387,32 +387,32 @@ def deep_lift_shap(model, X, args=None, target=0,  batch_size=32,
 		rj.append(i % n_shuffles)
 
 		if len(Xi) == batch_size or i == (n-1):
-			_X = X[Xi].cpu()
-			_args = None if args is None else tuple([a[Xi].to(device) 
-				for a in args])
-
-			# Handle reference sequences while ensuring that the same seed is
-			# used for each shuffle even if not all shuffles are done in the
-			# same batch.
-			if isinstance(references, torch.Tensor):
-				_references = references[Xi, rj]
-			else:
-				if random_state is None:
-					_references = references(_X, n=1)[:, 0]
-				else:
-					_references = torch.cat([references(_X[j:j+1], n=1, 
-						random_state=random_state+rj[j])[:, 0] 
-							for j in range(len(_X))])
-
-			_X = _X.to(device).requires_grad_()
-			_references = _references.to(device).requires_grad_()
-
-			# This next block is actually running DeepLIFT by concatenating the
-			# batch of examples and the batch of references and running the
-			# forward and backward passes that have been modified by the above
-			# hooks. In a try-except block to make sure we remove hooks if an
-			# error is raised. 
 			try:
+				_X = X[Xi].cpu()
+				_args = None if args is None else tuple([a[Xi].to(device) 
+					for a in args])
+
+				# Handle reference sequences while ensuring that the same seed is
+				# used for each shuffle even if not all shuffles are done in the
+				# same batch.
+				if isinstance(references, torch.Tensor):
+					_references = references[Xi, rj]
+				else:
+					if random_state is None:
+						_references = references(_X, n=1)[:, 0]
+					else:
+						_references = torch.cat([references(_X[j:j+1], n=1, 
+							random_state=random_state+rj[j])[:, 0] 
+								for j in range(len(_X))])
+
+				_X = _X.to(device).requires_grad_()
+				_references = _references.to(device).requires_grad_()
+
+				# This next block is actually running DeepLIFT by concatenating the
+				# batch of examples and the batch of references and running the
+				# forward and backward passes that have been modified by the above
+				# hooks. In a try-except block to make sure we remove hooks if an
+				# error is raised. 
 				X_ = torch.cat([_X, _references])
 
 				# Calculate the gradients using the rescale rule
